@@ -89,7 +89,12 @@ def corruptions(text, rng, budget):
     out.append(("blank line inserted", "\n".join(lines[:4] + [""] + lines[4:])))
     total = len(out)
     if len(out) > budget:
-        out = rng.sample(out, budget)
+        # base substitutions dominate the count: sample THEM; header / renaming / star / field / record damage is kept (capped)
+        subst = [c for c in out if c[0].startswith("base ")]
+        other = [c for c in out if not c[0].startswith("base ")]
+        if len(other) > budget // 2:
+            other = rng.sample(other, budget // 2)
+        out = other + rng.sample(subst, min(len(subst), max(0, budget - len(other))))
     return forced[:budget] + out, total + len(forced)
 
 
